@@ -88,6 +88,27 @@ func genCall(t *rapid.T) (ast.Expr, jv.Val, string) {
 	if gen.Chance(t, "stringrel", 1, 8) {
 		return stringRelCall(t)
 	}
+	if gen.Chance(t, "selfkey", 1, 16) {
+		// the functions that take an expression reference, over plain strings
+		// or numbers with the element itself as key
+		fn := gen.Pick(t, "selfkeyfn", []string{"sort_by", "sort_by", "min_by", "max_by", "group_by", "map"})
+		n := rapid.IntRange(0, 5).Draw(t, "selfkeylen")
+		strs := fn == "group_by" || rapid.Bool().Draw(t, "selfkeystrings")
+		a := make([]jv.Val, n)
+		for i := range a {
+			if strs {
+				a[i] = jv.VStr(gen.Pick(t, "selfkeystr", []string{"pear", "apple", "fig", "", "é", "apple", "b", "日本"}))
+			} else {
+				a[i] = jv.VNumText(gen.Pick(t, "selfkeynum", []string{"3", "1", "2", "1.0", "-1", "1e0", "10"}))
+			}
+		}
+		key := gen.Pick(t, "selfkeyexpr", []ast.Expr{ast.Cur(), ast.Cur(), ast.Paren(ast.Cur()), ast.Call("not_null", ast.A(ast.Cur()))})
+		subject := gen.Pick(t, "selfkeysubject", []ast.Expr{ast.F("p0"), ast.Lit(jv.VArr(a)), ast.F("p0").With(ast.Step{Kind: ast.SListStar})})
+		if fn == "map" {
+			return ast.Call(fn, ast.Ref(key), ast.A(subject)), jv.VObj([]jv.Member{{K: "p0", V: jv.VArr(a)}}), fn
+		}
+		return ast.Call(fn, ast.A(subject), ast.Ref(key)), jv.VObj([]jv.Member{{K: "p0", V: jv.VArr(a)}}), fn
+	}
 	f := gen.FnGen{T: t}
 	name := gen.Pick(t, "fn", model.FuncNames)
 	if gen.Chance(t, "unknown", 1, 60) {
